@@ -264,7 +264,7 @@ func allItems(it *ref.Item) []*ref.Item {
 }
 
 func runC05(c *ctx) {
-	c.Rule = "texts are generated from values: every item type x literal forms (decimal/hex/octal/binary in either case with sign, shortest/exact/exponent decimal floats, quoted runs and character codes in four bases, T/F, variables), rendered in random layouts and letter case -> class valid: the parsed message must denote exactly the generating model (types, order, values by printed form and by encoded bytes, variables). class invalid: one literal of a valid text replaced (or one added) by a literal its item type cannot represent (beyond each boundary, 1e20, 1e400, fraction, wrong kind, malformed, non-ASCII) -> an error and no message. class unspecified (low weight): representable value in an undocumented form -> an error or one of the plausible readings, never a third value. non-trivial = some literal is not in canonical decimal form, or the case is invalid/unspecified; distinct by text Also (rounds 5-8): plain decimals of 15-32 digits around 2^53..2^64; based literals whose digits leave the base; arbitrary identifiers as variable names; several messages with the same header and different literals."
+	c.Rule = "texts are generated from values: every item type x literal forms (decimal/hex/octal/binary in either case with sign, shortest/exact/exponent decimal floats, quoted runs and character codes in four bases, T/F, variables), rendered in random layouts and letter case -> class valid: the parsed message must denote exactly the generating model (types, order, values by printed form and by encoded bytes, variables). class invalid: one literal of a valid text replaced (or one added) by a literal its item type cannot represent (beyond each boundary, 1e20, 1e400, fraction, wrong kind, malformed, non-ASCII) -> an error and no message. class unspecified (low weight): representable value in an undocumented form -> an error or one of the plausible readings, never a third value. non-trivial = some literal is not in canonical decimal form, or the case is invalid/unspecified; distinct by text Also (rounds 5-8): plain decimals of 15-32 digits around 2^53..2^64; based literals whose digits leave the base; arbitrary identifiers as variable names; several messages with the same header and different literals. Also (round 10): literals in nests 6-16 lists deep with elements before and after every child list and three sibling lists on the lowest levels."
 	c.Assume = []string{"texts go from value to text, never the reverse; expected values are the generator's own", "undocumented forms (leading zero, + on unsigned, hex integers in floats, 5. or 1e1 in integer items, raw control characters in quotes) are classed unspecified"}
 
 	n := c.pick(120000, 1200000)
